@@ -143,6 +143,8 @@ func hintMap(hs []hint, bare bool) (map[gozxing.EncodeHintType]interface{}, erro
 			m[k] = h.I
 		case 6:
 			m[k] = 0 // resolved after the bare call
+		case 7:
+			m[k] = int(uint64(1)<<uint(h.A)) + h.I // 2^a + i; a = 63, i = -1 is the largest int
 		case 1:
 			m[k] = str(h.S)
 		case 2:
